@@ -221,7 +221,11 @@ def r1_parseinfo(a, tier):
     # semantics_call receives pos=key.pos from rule_call
     rc = a.p.func(f'{ENGINE}.rule_call')
     sc = [n for n in walk_no_defs(rc.node) if isinstance(n, ast.Call) and dotted(n.func) == 'self.semantics_call']
-    ok = bool(sc) and all(any(k.arg == 'pos' and norm(k.value) == 'key.pos' for k in n.keywords) or (len(n.args) >= 3 and norm(n.args[2]) == 'key.pos') for n in sc)
+    keyp = rc.params[2] if len(rc.params) > 2 else 'key'
+
+    def is_keypos(e):
+        return norm(through_locals(rc, e)) == f'{keyp}.pos'  # also through a local alias (`pos = key.pos`)
+    ok = bool(sc) and all(any(k.arg == 'pos' and is_keypos(k.value) for k in n.keywords) or (len(n.args) >= 3 and is_keypos(n.args[2])) for n in sc)
     rep.add({'rule_call_passes_key.pos_to_semantics_call': ok})
     if not ok:
         rep.fail(rc.qualname, 'sem-pos', 'rule_call does not pass key.pos to semantics_call', rc.loc)
